@@ -256,6 +256,7 @@ def main():
         "VIR encoder/decoder pairs (harness/vir.go + harness/c06_virdec.go, lean/Cog/IR/Vir.lean); PassesTrail and the member Type options of enum values are not part of VIR",
         "the chain extractor extract/xchains (go/ast over internal/jennies/*/jennies.go), cross-checked on every run against the pass types returned at run time by CompilerPasses()",
         "tools.UpperCamelCase modelled for ASCII (x/text title-casing on [a-zA-Z0-9 ] only); c06-ucc stream",
+        "cross-pass pointer sharing is NOT modelled: FlattenDisjunctions copies the branches of a referred union object without copying their kind pointers, and InlineObjectsWithTypes (PHP chain) later assigns children in place through them; the Lean chain model flags such inputs (`shared`, counted as skipped_shared) instead of claiming an output; minimal example: Foo={value: Qux|string}, Qux=[]Qux|string",
         "inputs on which cog's resolution helpers recurse forever (alias cycles) are not generated / not compared: a Go stack overflow cannot be recovered by the harness (C04's business)",
         "the Go oracle harness/c06_oracle.go and the Lean predicates lean/Cog/NF/Preds.lean are independent implementations of the property's normal forms; their verdicts are compared on every real chain output",
     ]
@@ -379,6 +380,13 @@ def main():
                 st["skipped_cycle"] += 1
                 continue
             m = next(it)
+            if m == "shared":
+                # cross-pass pointer sharing (FlattenDisjunctions then InlineObjectsWithTypes): outside the tree model
+                st["skipped_shared"] = st.get("skipped_shared", 0) + 1
+                if len(r) > 2 and r[2].startswith("FAIL"):
+                    all_fail_rows.append(r)
+                    st["oracle_failures"] += 1
+                continue
             if r[1] == "panic":
                 st["panic"] += 1
             if r[1] == "err":
@@ -455,7 +463,7 @@ def report_disagreement(c, hb, stream, kw, dis):
             return None
         reps = drv(reqs)
         for i, (x, mm) in enumerate(zip(rows, reps)):
-            if mm != x[1] and x[1] != "cycle":
+            if mm != x[1] and x[1] != "cycle" and mm != "shared":
                 return i
         return None
     small = r[0]
@@ -525,7 +533,7 @@ def replay(c, hb):
     print("implementation:", r[1][:2000])
     print("model         :", m[:2000])
     print("oracle        :", r[2])
-    bad = (m != r[1])
+    bad = (m != r[1] and m != "shared")
     if r[2].startswith("FAIL"):
         lang = req.split(" ")[1]
         for conj in failing_conjuncts(r[2]):
